@@ -1,10 +1,13 @@
 """C19 - both algorithms and equivalent formulations give mutually consistent answers.
 
-Theorems (coq/Props/Properties_C19.v): a matching must exist when both runs satisfy C01 (pigeonhole),
-the intersect test is exactly "the discs meet", the extracted matching checker is sound and complete,
-and roots/discs transform as stated between formulations (scaling, variable rescaling, reversal with the
-inverted disc).  Tie: pairs of runs of the real solver on the same equation; discs exported exactly;
-a Python augmenting-path search proposes the matching, the extracted Coq checker validates it."""
+Theorems (coq/Props/Properties_C19.v): a matching must exist when both runs satisfy C01 (pigeonhole; labelled /
+multiplicity form; exactly-one-root form; the bare coverage form refuted), the intersect test is exactly "the discs
+meet", the extracted matching checker is sound and complete, roots/discs transform as stated between formulations,
+and the EXTRACTED conversions that produce the formulations (scaling, rescaling, reversal, polynomial -> secular
+form by the regeneration formula, validated Chebyshev coefficients) denote the intended polynomials (same roots,
+same multiplicities).  Tie: pairs of runs of the real solver on the same equation, the second formulation computed
+by the extracted conversions (bin/matchq); discs exported exactly; a Python augmenting-path search proposes the
+matching, the extracted Coq checker validates it."""
 import os, sys, json, collections
 from fractions import Fraction as Fr
 import vf, solve as S, polygen as G
@@ -55,49 +58,118 @@ def map_invert(d):               # roots of the reversed polynomial are 1/w ; ne
     return (d[0] / D, -d[1] / D, d[2] / D)
 
 
-def variants(case, rng):
-    """(name, text, opts, mapA) : second formulation of the same equation, and how discs of the
-    FIRST run must be mapped before they are compared with discs of the second."""
-    p = case["coeffs"]
-    out = []
-    ident = lambda d: d
-    # coefficients multiplied by a constant
-    c = rng.choice([Fr(2) ** rng.randint(-40, 40), Fr(3), Fr(10) ** 30, Fr(1, 10 ** 30), Fr(-7, 3)])
-    out.append(("scaled-coeffs", S.pol_monomial([(a[0] * c, a[1] * c) for a in p], kind="Rational"), ident))
-    # variable rescaled: q(x) = p(alpha x)
-    # 2^±100 with degree >= 7 pushes the coefficient range beyond the double range: the classic
+def cq(z):                       # complex rational -> "re_num re_den im_num im_den"
+    return "%d %d %d %d" % (z[0].numerator, z[0].denominator, z[1].numerator, z[1].denominator)
+
+
+def parse_cqs(tokens):
+    if len(tokens) % 4: raise vf.InfraError("matchq conversion output is not a list of complex rationals")
+    v = [int(t) for t in tokens]
+    return [(Fr(v[i], v[i + 1]), Fr(v[i + 2], v[i + 3])) for i in range(0, len(v), 4)]
+
+
+ALPHAS = [Fr(2), Fr(1, 4), Fr(3), Fr(-5, 7), Fr(1024), Fr(1, 1000), Fr(2) ** 100, Fr(1, 2 ** 100),
+          Fr(7, 3), Fr(-10, 3), Fr(1, 3), Fr(10 ** 6 + 1, 10 ** 6), Fr(22, 7) ** 9]
+CONSTS = [Fr(3), Fr(10) ** 30, Fr(1, 10 ** 30), Fr(-7, 3), Fr(10) ** 320, Fr(1, 10 ** 320), Fr(2) ** 1100, Fr(-1, 3 ** 700)]
+
+
+def plan_conversions(case, rng):
+    """choose the parameters of the equivalent formulations of one case and the query for the EXTRACTED
+    conversions (Match/ConvertModel.v via bin/matchq): returns (parameters, query lines, number of answers)"""
+    p = case["coeffs"]; n = len(p) - 1
+    prm = {}; q = ["P " + " ".join(cq(a) for a in p)]; nans = 0
+    prm["c"] = rng.choice([Fr(2) ** rng.randint(-40, 40)] + CONSTS)
+    q += ["C " + cq((prm["c"], Fr(0))), "SCALE"]; nans += 1
+    # 2^+-100 with degree >= 7 pushes the coefficient range beyond the double range: the classic
     # driver then starts directly in the DPE phase (a path the moderate scalings never take)
-    alpha = rng.choice([Fr(2), Fr(1, 4), Fr(3), Fr(-5, 7), Fr(1024), Fr(1, 1000), Fr(2) ** 100, Fr(1, 2 ** 100)])
-    if case["name"].startswith("gaussint"): alpha = Fr(2) ** 250   # coefficient range 2^(250*deg) > 1e616: direct DPE start
-    out.append(("rescaled-variable", S.pol_monomial([(a[0] * alpha ** k, a[1] * alpha ** k) for k, a in enumerate(p)], kind="Rational"),
-                lambda d, al=alpha: map_scale(d, al)))
-    # coefficient order reversed (only when 0 is not a root)
-    if not S.cis0(p[0]):
-        out.append(("reversed", S.pol_monomial(list(reversed(p)), kind="Rational"), map_invert))
-    # secular form of the same (monic-normalised) polynomial
-    n = len(p) - 1
+    prm["alpha"] = rng.choice(ALPHAS)
+    if case["name"].startswith("gaussint"): prm["alpha"] = Fr(2) ** 250   # coefficient range 2^(250*deg) > 1e616: direct DPE start
+    q += ["C " + cq((prm["alpha"], Fr(0))), "RESCALE"]; nans += 1
+    prm["rev"] = not S.cis0(p[0])
+    if prm["rev"]: q.append("REVERSE"); nans += 1
+    prm["nodes"] = None; prm["cheb"] = None
     if n >= 2:
-        lead = p[-1]
-        monic = [S.cdiv(a, lead) for a in p]
+        cplx = any(a[1] != 0 for a in p)
         nodes = []
         while len(nodes) < n:
-            b = (Fr(rng.randint(-30, 30), rng.randint(1, 4)), Fr(rng.randint(-30, 30), rng.randint(1, 4)) if any(a[1] != 0 for a in p) else Fr(0))
-            if b not in nodes and not S.cis0(S.poly_eval(monic, b)): nodes.append(b)
-        sec = S.monomial_to_secular(monic, nodes)
-        if S.secular_to_monomial(sec) == monic:
+            b = (Fr(rng.randint(-30, 30), rng.randint(1, 4)), Fr(rng.randint(-30, 30), rng.randint(1, 4)) if cplx else Fr(0))
+            if b not in nodes and not S.cis0(S.poly_eval(p, b)): nodes.append(b)
+        prm["nodes"] = nodes
+        # the exponential-size back conversion of the shared oracle (no gcd reduction) only for small degrees
+        q += ["N " + " ".join(cq(b) for b in nodes), "SECULAR %d" % (1 if n <= 7 else 0)]; nans += 1
+        if all(a[1] == 0 for a in p):
+            prm["cheb"] = S.monomial_to_chebyshev(p)            # untrusted proposal, validated by chebyshev_back_ok
+            q += ["K " + " ".join(cq(c_) for c_ in prm["cheb"]), "CHEB"]; nans += 1
+    return prm, q, nans
+
+
+def variants(case, prm, answers, hist):
+    """(name, text, mapA, mapspec): second formulation of the same equation as computed by the extracted conversions,
+    and how discs of the FIRST run must be mapped before they are compared with discs of the second."""
+    p = case["coeffs"]; n = len(p) - 1
+    out = []; ans = list(answers)
+    def take(tag):
+        t = ans.pop(0).split()
+        if not t or t[0] != tag: raise vf.InfraError("matchq conversion answer %r where %s was expected" % (t[:2], tag))
+        return t[1:]
+    def same(name, got, ref):
+        if got != ref: raise vf.InfraError("extracted conversion %s differs from the Python reference on %s" % (name, case["name"]))
+    ident = lambda d: d
+    c = prm["c"]
+    scaled = parse_cqs(take("R")); same("conv_scale", scaled, [(a[0] * c, a[1] * c) for a in p])
+    out.append(("scaled-coeffs", S.pol_monomial(scaled, kind="Rational"), ident, {"map": "ident"}))
+    alpha = prm["alpha"]
+    resc = parse_cqs(take("R")); same("conv_rescale", resc, [(a[0] * alpha ** k, a[1] * alpha ** k) for k, a in enumerate(p)])
+    out.append(("rescaled-variable", S.pol_monomial(resc, kind="Rational"), lambda d, al=alpha: map_scale(d, al), {"map": "scale", "alpha": str(alpha)}))
+    if prm["rev"]:
+        rev = parse_cqs(take("R")); same("conv_reverse", rev, list(reversed(p)))
+        out.append(("reversed", S.pol_monomial(rev, kind="Rational"), map_invert, {"map": "invert"}))
+    if prm["nodes"] is not None:
+        t = take("S")
+        if t[0] != "1":
+            hist["conversion:secular-precondition-false"] += 1
+        else:
+            if t[1] == "0": raise vf.InfraError("secular_back_ok rejects the output of conv_secular on %s" % case["name"])
+            if t[1] == "1": hist["conversion:secular-back-checked"] += 1
+            flat = parse_cqs(t[2:]); sec = [(flat[i], flat[i + 1]) for i in range(0, len(flat), 2)]
+            lead = p[-1]
+            same("conv_secular", sec, S.monomial_to_secular([S.cdiv(a, lead) for a in p], prm["nodes"]))
             cplx = any(a[1] != 0 or b[1] != 0 for a, b in sec)
             q = lambda x: "%d/%d" % (x.numerator, x.denominator)
             lines = ["Secular;", "Degree=%d;" % n, "Rational;", "Complex;" if cplx else "Real;", ""]
             for a, b in sec:
                 lines.append(("%s %s %s %s" % (q(a[0]), q(a[1]), q(b[0]), q(b[1]))) if cplx else ("%s %s" % (q(a[0]), q(b[0]))))
-            out.append(("secular-form", "\n".join(lines) + "\n", ident))
-        # Chebyshev form (real-coefficient polynomials)
-        if all(a[1] == 0 for a in p):
-            cs = S.monomial_to_chebyshev(p)
-            if S.chebyshev_to_monomial(cs) == p:
-                lines = ["Chebyshev;", "Degree=%d;" % n, "Rational;", "Real;", ""] + ["%d/%d" % (c_[0].numerator, c_[0].denominator) for c_ in cs]
-                out.append(("chebyshev-form", "\n".join(lines) + "\n", ident))
+            out.append(("secular-form", "\n".join(lines) + "\n", ident, {"map": "ident"}))
+    if prm["cheb"] is not None:
+        t = take("K")
+        if t[0] != "1": raise vf.InfraError("chebyshev_back_ok rejects the proposed Chebyshev coefficients of %s" % case["name"])
+        cs = prm["cheb"]
+        lines = ["Chebyshev;", "Degree=%d;" % n, "Rational;", "Real;", ""] + ["%d/%d" % (c_[0].numerator, c_[0].denominator) for c_ in cs]
+        out.append(("chebyshev-form", "\n".join(lines) + "\n", ident, {"map": "ident"}))
     return out
+
+
+def extra_cases(ctx):
+    """inputs aimed at C19's hard spots: ill-conditioned (Wilkinson), clustered simple roots, Chebyshev forms of higher
+    degree (roots in [-1,1]), Gaussian-integer polynomials for the direct DPE start"""
+    rng = ctx.rng; out = []
+    one = (Fr(1), Fr(0))
+    for d in ctx.pick((12, 16), (12, 16, 20, 24)):
+        out.append(G.from_roots_case("wilk%d" % d, "wilkinson-ill-conditioned", [(Fr(k), Fr(0)) for k in range(1, d + 1)], rng, kind="Integer"))
+    for d in ctx.pick((16, 22), (16, 22, 30, 40)):
+        rs = set()
+        while len(rs) < d: rs.add(Fr(rng.randint(-63, 63), 64))
+        out.append(G.from_roots_case("chebdom%d" % d, "real-roots-in-[-1,1]", [(r, Fr(0)) for r in sorted(rs)], rng, kind="Rational"))
+    for (d, k) in ctx.pick(((6, 20),), ((6, 20), (10, 30))):
+        base = Fr(rng.randint(-3, 3), 2)
+        rs = [(base + Fr(j, 2 ** k), Fr(0)) for j in range(3)] + [(Fr(rng.randint(-9, 9), 4), Fr(rng.randint(1, 9), 4)) for _ in range(d - 3)]
+        if len(set(rs)) == len(rs):
+            out.append(G.from_roots_case("clus%d_%d" % (d, k), "clustered-simple-2^-%d" % k, rs, rng, kind="Rational"))
+    # Gaussian-integer polynomials (real and imaginary parts of mixed signs) of a degree high enough that
+    # p(2^250 x) can only be represented in DPE/multiprecision
+    for d in ctx.pick((9, 12), (9, 12, 24, 40)):
+        out.append(G.mono_case("gaussint%d" % d, "random-integer-complex", G.rand_int_poly(rng, d, 6, True), rng))
+    return [c for c in out if S.is_squarefree(c["coeffs"])]
 
 
 def run(ctx):
@@ -106,39 +178,51 @@ def run(ctx):
     binary = ctx.compile_harness(["vf_solve.c"], "vf_solve", mode="san")
     env = ctx.san_env()
     big = Fr(2) ** 4000
+    jobs, plan, cases = [], [], []
+    conv_hist = collections.Counter()
     if ctx.replay:
         rp = json.load(open(ctx.replay))
-        cases = [{"name": rp["case"], "text": rp["textA"], "coeffs": None, "replay": rp}]
-    ncases = ctx.pick(36, 400)
-    maxdeg = ctx.pick(14, 40)
-    cases = [c for c in G.standard_cases(ctx.rng, ncases * 2, maxdeg=maxdeg)
-             if c["cls"] not in ("multiple-roots", "secular", "chebyshev") and S.is_squarefree(c["coeffs"])][:ncases]
-    # Gaussian-integer polynomials (real and imaginary parts of mixed signs) of a degree high enough that
-    # p(2^100 x) can only be represented in DPE/multiprecision
-    for d in ctx.pick((9, 12), (9, 12, 24, 40)):
-        c = G.mono_case("gaussint%d" % d, "random-integer-complex", G.rand_int_poly(ctx.rng, d, 6, True), ctx.rng)
-        if S.is_squarefree(c["coeffs"]): cases.append(c)
-    if not ctx.quick():
-        # degrees beyond what an exact oracle can certify
-        for d in (100, 200, 300):
-            cases.append(G.mono_case("big%d" % d, "random-integer-large", G.rand_int_poly(ctx.rng, d, 10), ctx.rng))
-    # build the job list: for each case the base runs (classic, secular) and each variant under one algorithm
-    jobs, plan = [], []
-    for ci, c in enumerate(cases):
-        base_u = len(jobs); jobs.append({"text": c["text"], "opts": ["-a", "u", "-G", "i"]})
-        base_s = len(jobs); jobs.append({"text": c["text"], "opts": ["-a", "s", "-G", "i"]})
-        plan.append((ci, "classic-vs-secular", base_u, base_s, None))
-        goalopts = ctx.rng.choice([["-G", "i"], ["-G", "a", "-o", "30"]])
-        for (vn, vtext, mp) in variants(c, ctx.rng):
-            alg = ctx.rng.choice(["u", "s"])
-            if c["name"].startswith("gaussint") and vn == "rescaled-variable": alg = "u"
-            j = len(jobs); jobs.append({"text": vtext, "opts": ["-a", alg] + goalopts})
-            plan.append((ci, vn + ":" + alg, base_u if alg == "u" else base_s, j, mp))
+        cases = [{"name": rp["case"], "cls": "replay", "degree": -1, "coeffs": None}]
+        jobs = [{"text": rp["textA"], "opts": rp["optsA"]}, {"text": rp["textB"], "opts": rp["optsB"]}]
+        ms = rp.get("mapspec", {"map": "ident"})
+        mp = None if ms["map"] == "ident" else map_invert if ms["map"] == "invert" else (lambda d, al=Fr(ms["alpha"]): map_scale(d, al))
+        plan = [(0, rp["kind"], 0, 1, mp, ms)]
+    else:
+        ncases = ctx.pick(30, 400)
+        maxdeg = ctx.pick(14, 40)
+        cases = [c for c in G.standard_cases(ctx.rng, ncases * 2, maxdeg=maxdeg)
+                 if c["cls"] not in ("multiple-roots", "secular", "chebyshev") and S.is_squarefree(c["coeffs"])][:ncases]
+        cases += extra_cases(ctx)
+        if not ctx.quick():
+            # degrees beyond what an exact oracle can certify
+            for d in (100, 200, 300):
+                cases.append(G.mono_case("big%d" % d, "random-integer-large", G.rand_int_poly(ctx.rng, d, 10), ctx.rng))
+        # the equivalent formulations are computed by the extracted conversions (one batch through bin/matchq)
+        prms, query, counts = [], [], []
+        for c in cases:
+            prm, q, k = plan_conversions(c, ctx.rng)
+            prms.append(prm); query += q; counts.append(k)
+        answers = [l for l in ctx.run_model("matchq", "\n".join(query) + "\n").split("\n") if l.strip()]
+        if len(answers) != sum(counts):
+            raise vf.InfraError("matchq driver returned %d conversion answers for %d queries" % (len(answers), sum(counts)))
+        # build the job list: for each case the base runs (classic, secular) and each variant under one algorithm
+        pos = 0
+        for ci, c in enumerate(cases):
+            base_u = len(jobs); jobs.append({"text": c["text"], "opts": ["-a", "u", "-G", "i"]})
+            base_s = len(jobs); jobs.append({"text": c["text"], "opts": ["-a", "s", "-G", "i"]})
+            plan.append((ci, "classic-vs-secular", base_u, base_s, None, {"map": "ident"}))
+            goalopts = ctx.rng.choice([["-G", "i"], ["-G", "a", "-o", "30"]])
+            for (vn, vtext, mp, ms) in variants(c, prms[ci], answers[pos:pos + counts[ci]], conv_hist):
+                alg = ctx.rng.choice(["u", "s"])
+                if c["name"].startswith("gaussint") and vn == "rescaled-variable": alg = "u"
+                j = len(jobs); jobs.append({"text": vtext, "opts": ["-a", alg] + goalopts})
+                plan.append((ci, vn + ":" + alg, base_u if alg == "u" else base_s, j, None if ms["map"] == "ident" else mp, ms))
+            pos += counts[ci]
     ctx.log("running %d solves for %d cases" % (len(jobs), len(cases)))
     results = S.run_many(binary, jobs, os.path.join(ctx.scratch, "jobs"), env=env, workers=16, timeout=ctx.pick(120, 900))
     hist = collections.Counter(); samples = []; pairs = 0; undecided = 0; nontrivial = set(); model_in = []
     pending = []
-    for (ci, kind, ja, jb, mp) in plan:
+    for (ci, kind, ja, jb, mp, ms) in plan:
         c = cases[ci]; ra, rb = results[ja], results[jb]
         kname = kind.split(":")[0]
         if ra.kind != "ok" or rb.kind != "ok":
@@ -155,20 +239,20 @@ def run(ctx):
             A = A2
         if len(A) != len(B):
             ctx.violation("count:%s:%s:%s" % (kname, algs, c["name"]), "the two formulations return different numbers of discs (%d vs %d) for %s" % (len(A), len(B), c["name"]),
-                          {"case": c["name"], "kind": kind, "textA": jobs[ja]["text"], "optsA": jobs[ja]["opts"], "textB": jobs[jb]["text"], "optsB": jobs[jb]["opts"]})
+                          {"case": c["name"], "kind": kind, "textA": jobs[ja]["text"], "optsA": jobs[ja]["opts"], "textB": jobs[jb]["text"], "optsB": jobs[jb]["opts"], "mapspec": ms})
             continue
         pairs += 1; hist[kname] += 1
         sigma, unmatched, adj = perfect_matching(A, B)
         if sigma is None:
             ctx.violation("nomatch:%s:%s:%s" % (kname, algs, c["name"]),
                           "no one-to-one matching with intersecting discs between the two runs (%s) of %s; unmatched discs of the first run: %s" % (kind, c["name"], unmatched),
-                          {"case": c["name"], "kind": kind, "textA": jobs[ja]["text"], "optsA": jobs[ja]["opts"], "textB": jobs[jb]["text"], "optsB": jobs[jb]["opts"],
+                          {"case": c["name"], "kind": kind, "textA": jobs[ja]["text"], "optsA": jobs[ja]["opts"], "textB": jobs[jb]["text"], "optsB": jobs[jb]["opts"], "mapspec": ms,
                            "unmatched": unmatched, "discsA": [[str(x) for x in A[i]] for i in unmatched],
                            "neighbours": [adj[i] for i in unmatched]})
             continue
         # hand the proposed matching to the verified checker
         lines = [fmt_disc("A", d, big) for d in A] + [fmt_disc("B", d, big) for d in B] + ["S " + " ".join(map(str, sigma)), "GO"]
-        model_in.append("\n".join(lines)); pending.append((c, kind, ja, jb))
+        model_in.append("\n".join(lines)); pending.append((c, kind, ja, jb, ms))
         if any(sigma[i] != i for i in range(len(sigma))) or len(A) > 1: nontrivial.add((c["name"], kind))
         if len(samples) < 4:
             samples.append({"case": c["name"], "class": c["cls"], "pair": kind, "degree": c["degree"], "sigma": sigma[:12],
@@ -178,21 +262,23 @@ def run(ctx):
         out = ctx.run_model("matchq", "\n".join(model_in) + "\n").split()
         if len(out) != len(pending):
             raise vf.InfraError("matchq driver returned %d answers for %d queries" % (len(out), len(pending)))
-        for ans, (c, kind, ja, jb) in zip(out, pending):
+        for ans, (c, kind, ja, jb, ms) in zip(out, pending):
             if ans == "OK": verified += 1
             else:
                 ctx.violation("checker-reject:%s:%s" % (kind.split(":")[0], c["name"]), "the verified checker rejects the proposed matching for %s (%s)" % (c["name"], kind),
-                              {"case": c["name"], "kind": kind, "textA": jobs[ja]["text"], "optsA": jobs[ja]["opts"], "textB": jobs[jb]["text"], "optsB": jobs[jb]["opts"]})
+                              {"case": c["name"], "kind": kind, "textA": jobs[ja]["text"], "optsA": jobs[ja]["opts"], "textB": jobs[jb]["text"], "optsB": jobs[jb]["opts"], "mapspec": ms})
     cov = {"evaluations": len(jobs), "programs": pairs, "disagreements_checked": verified,
            "distinct_nontrivial": len(nontrivial),
            "rule": "a case is an (equation, pair of formulations/algorithms); distinct by (name, pair kind); non-trivial when the degree is > 1 (a real matching problem)",
-           "pairs_by_kind": dict(hist), "undecided_or_skipped": undecided, "matchings_verified_by_extracted_checker": verified,
+           "pairs_by_kind": dict(hist), "formulations_computed_by_extracted_conversions": sum(1 for p_ in plan if p_[1] != "classic-vs-secular"),
+           "conversion_events": dict(conv_hist), "undecided_or_skipped": undecided, "matchings_verified_by_extracted_checker": verified,
            "degree_histogram": dict(collections.Counter(c["degree"] for c in cases)),
            "class_histogram": dict(collections.Counter(c["cls"] for c in cases)),
            "samples": samples,
            "trusted_base": ["Coq 8.16.1 kernel; all C19 theorems closed under the global context (no axioms)",
                             "extraction: ExtrOcamlBasic, ExtrOcamlNativeString; ocaml/matchq_driver.ml (zarith only for decimal->bits)",
                             "harness/vf_solve.c exact export + lib/solve.py parser; disc maps for rescaling/inversion computed in Python with Fractions following C19_rescale_disc / C19_inv_disc_sound",
+                            "formulations: coefficients computed by the extracted conv_scale/conv_rescale/conv_reverse/conv_secular (C19_conv_*_sound), Chebyshev coefficients proposed by Python and accepted by the extracted chebyshev_back_ok (C19_chebyshev_back_sound); trusted: the rendering of these numbers as .pol text and MPSolve's parser; Python recomputes each conversion and any difference stops the check (exit 2)",
                             "the untrusted augmenting-path search only proposes the matching"]}
     return ctx.finish("proof", cov, ["the solver's iteration is not modelled; a missing matching is a violation of C19 as stated",
                                      "runs that end in an error or crash are left to C03"])
